@@ -271,7 +271,10 @@ void h_run(Ctx &c)
 		s.depth = t.weighted({ 6, 1 }) == 0 ? 1 + t.choose(3) : 1 + t.choose(32);
 	s.senders = (unsigned)c.param("senders", fixed ? 2 : 0);
 	if (!s.senders)
-		s.senders = 1 + t.choose(s.mode == VRT_ISR ? 2 : 3);
+		s.senders = 1 + t.choose(s.mode == VRT_ISR ? 4 : 3);
+	int nest = (int)c.param("nest", fixed ? 2 : -1);
+	if (nest < 0)
+		nest = 2 + (int)t.choose(2);
 	s.per_sender = (unsigned)c.param("msgs", fixed ? 1 : 0);
 	if (!s.per_sender)
 		s.per_sender = 1 + t.choose(3);
@@ -300,6 +303,7 @@ void h_run(Ctx &c)
 
 	vrt_reset(s.mode, choose_cb);
 	vrt_config(budget, every, spurious);
+	vrt_set_max_nesting(nest);
 	amc_setup(s.depth, s.msg_len);
 	for (unsigned i = 0; i < precycle; i++) { // start the indices anywhere
 		long o = amc_claim();
@@ -321,9 +325,10 @@ void h_run(Ctx &c)
 		vrt_spawn(receiver_fn, nullptr, 0);
 		vrt_run();
 	} else if (s.roles == 0) {
-		// main context = receiver; senders are handlers of priority 1, 2, 2 (nesting depth <= 2)
+		// main context = receiver; senders are handlers of rising priority (1, 2, 3, ...: each may interrupt the ones
+		// before it, up to the nesting bound); with nest == 2 priorities are 1, 2, 2, 2
 		for (unsigned i = 0; i < s.senders; i++)
-			vrt_spawn(sender_fn, (void *)(intptr_t)i, i == 0 ? 1 : 2);
+			vrt_spawn(sender_fn, (void *)(intptr_t)i, nest > 2 ? (int)i + 1 : (i == 0 ? 1 : 2));
 		vrt_isr_enable(1);
 		unsigned rounds = s.senders * s.per_sender + 2;
 		for (unsigned r = 0; r < rounds && !c.failed; r++) {
@@ -456,6 +461,8 @@ void h_run(Ctx &c)
 		c.cls("a-claim-failed");
 	if (R->interrupts)
 		c.cls(R->interrupts >= 2 ? "two-or-more-interrupts" : "one-interrupt");
+	if (nest > 2 && s.mode == VRT_ISR)
+		c.cls("isr-nesting-depth-3");
 	if (R->switches > s.senders + 1)
 		c.cls("preempted");
 	if (R->spurious_cas)
